@@ -178,6 +178,9 @@ def fmt_arg(s: str):
 
 # ------------------------------------------------------------------------------------------------ execute
 def execute(line: str):
+    # every case starts on cold caches (DESIGN §3B): a case is self-contained, so a replay in a fresh process sees what
+    # the run saw, and state left behind by one case (e.g. a poisoned token cache) is charged to the case that caused it
+    clear_caches()
     f = line.split(SEP)
     op, extra = f[1], {}
     if op == "pack":
